@@ -677,9 +677,16 @@ func (m *M) concIndex(v Value, n int, what string) int {
 	if idx.conc {
 		return int(idx.signed())
 	}
-	for i := 0; i < n && i < 16; i++ {
+	const symIndexMax = 64
+	for i := 0; i < n && i < symIndexMax; i++ {
 		if m.branch(Bool{t: fmt.Sprintf("(= %s (_ bv%d %d))", idx.t, i, idx.w)}) {
 			return i
+		}
+	}
+	if n > symIndexMax {
+		// the case split above is not exhaustive: an index in [symIndexMax, n) must be impossible here
+		if m.branch(Bool{t: fmt.Sprintf("(and (bvuge %s (_ bv%d %d)) (bvult %s (_ bv%d %d)))", idx.t, symIndexMax, idx.w, idx.t, n, idx.w)}) {
+			panic(engineErr(fmt.Sprintf("symbolic %s index may exceed %d (length %d): case split not exhaustive", what, symIndexMax, n)))
 		}
 	}
 	// anything else is out of range
@@ -1405,6 +1412,34 @@ func (f *frame) builtin(name string, args []Value, c *ssa.CallCommon, pos token.
 		return p
 	case "print", "println":
 		return nil
+	case "SliceData": // unsafe.SliceData(s): pointer to element 0 of the backing array (nil for a nil slice)
+		sl := m.force(args[0]).(Slice)
+		if sl.abs {
+			panic(engineErr("unsafe.SliceData of an atom byte slice at " + m.pos(pos)))
+		}
+		if sl.isNil || sl.arr == nil {
+			return Ptr{}
+		}
+		return Ptr{obj: sl.arr}.sub(sl.off)
+	case "String": // unsafe.String(ptr, len): the bytes from *ptr on, which must be an element of a byte array
+		p := m.force(args[0]).(Ptr)
+		n, okn := m.force(args[1]).(Int)
+		if !okn || !n.conc {
+			panic(engineErr("unsafe.String with a symbolic length at " + m.pos(pos)))
+		}
+		if n.v == 0 {
+			return Str{conc: true}
+		}
+		p.path = append([]int{}, p.path...)
+		if p.obj == nil || len(p.path) != 1 {
+			panic(engineErr("unsafe.String on something that is not an array element at " + m.pos(pos)))
+		}
+		a, isAgg := p.obj.v.(Agg)
+		if !isAgg || p.path[0]+int(n.v) > len(a) {
+			panic(engineErr("unsafe.String beyond its array at " + m.pos(pos)))
+		}
+		sl := Slice{arr: p.obj, off: p.path[0], ln: int(n.v), cp: int(n.v)}
+		return m.convert(sl, types.NewSlice(types.Typ[types.Uint8]), types.Typ[types.String], pos)
 	case "min", "max":
 		r := m.force(args[0])
 		for _, a := range args[1:] {
